@@ -7,7 +7,7 @@ O3 no process-wide state carried between the tasks of one worker
 """
 import ast
 
-from ..engine.program import AnalysisError, dotted, src, walk_no_nested, call_name
+from ..engine.program import AnalysisError, dotted, src, walk_no_nested, call_name, shape
 from ..engine import setorder
 from . import c10, c15
 
@@ -15,9 +15,9 @@ DSP = "src/dataset_processor.py"
 
 # Sinks found on the pinned tree and triaged by reading.  key = (module, function, kind-prefix, construct prefix)
 TRIAGE = [
-    (DSP, "DatasetProcessor.collect_reads", "hash-ordered sequence serialised", "write_list(list(all_read_groups)",
+    (DSP, "DatasetProcessor.collect_reads", "hash-ordered sequence serialised", "write_list(list($)",
      "benign: the <save>_info group list is only ever re-read into a set (load_read_info wraps read_list in set(); verified on each run)"),
-    (DSP, "collect_reads_in_parallel", "write inside hash-ordered loop", "for g in read_grouper.read_groups",
+    (DSP, "collect_reads_in_parallel", "write inside hash-ordered loop", "for $ in $.read_groups",
      "benign: the <save>_<chr>_groups file is only re-read line by line into read_groups.add() (a set; verified on each run)"),
     ("src/isoform_assignment.py", "BasicReadAssignment.__eq__", "order-sensitive comparison", "self.isoforms == other.isoforms",
      "benign: both operands are list(set) built in one process by the same code from isoform matches created in sorted-id order; "
@@ -26,10 +26,10 @@ TRIAGE = [
      "benign: the only consumers of the multimapper records' isoforms are set.update() and __eq__ (above)"),
     ("src/isoform_assignment.py", "BasicReadAssignment.serialize", "hash-ordered sequence serialised", "write_list(self.genes",
      "benign: the only consumer of genes is set.update() in filter_assignments"),
-    ("src/long_read_assigner.py", "LongReadAssigner.resolve_by_nucleotide_score", "element selected by position", "scores[0]",
+    ("src/long_read_assigner.py", "LongReadAssigner.resolve_by_nucleotide_score", "element selected by position", "$[0]",
      "benign: only scores[0][1], the maximal score, is read - equal for all tied elements (verified: the subscript is [0][1] "
      "after sorting by x[1]); the list itself is re-sorted without key before use"),
-    ("src/long_read_counter.py", "AssignedFeatureCounter.add_read_info", "element selected by position", "list(feature_ids)[0]",
+    ("src/long_read_counter.py", "AssignedFeatureCounter.add_read_info", "element selected by position", "list($)[0]",
      "benign: inside the is_unique() branch the feature set is a singleton (assignment-type invariant; recorded as assumption)"),
 ]
 
@@ -38,27 +38,32 @@ def verify_triage_side_conditions(prog, ctx):
     f = prog.func(DSP, "DatasetProcessor.load_read_info")
     ok1 = any(isinstance(s, ast.Assign) and src(s.value).startswith("set(read_list(") for s in walk_no_nested(f))
     g = prog.func_inlined(DSP, "collect_reads_in_parallel")
-    ok2 = any(isinstance(c, ast.Call) and src(c.func) == "read_grouper.read_groups.add" for c in walk_no_nested(g)) and \
-        any(isinstance(l, ast.For) and "open(group_file)" in src(l.iter) for l in walk_no_nested(g))
+    # the per-chromosome groups file is only read back line by line into <grouper>.read_groups.add()
+    ok2 = any(isinstance(c, ast.Call) and isinstance(c.func, ast.Attribute) and c.func.attr == "add" and src(c.func.value).endswith(".read_groups")
+              for c in walk_no_nested(g)) and \
+        any(isinstance(l, ast.For) and isinstance(l.iter, ast.Call) and call_name(l.iter) == "open" for l in walk_no_nested(g))
     r = prog.func("src/long_read_assigner.py", "LongReadAssigner.resolve_by_nucleotide_score")
-    ok3 = any(isinstance(s, ast.Assign) and src(s.value) == "scores[0][1]" for s in walk_no_nested(r)) and \
-        not any(isinstance(n, ast.Subscript) and src(n) == "scores[0][0]" for n in walk_no_nested(r))
+    # of the sorted score list only [0][1] (the maximal score) is read, never [0][0]
+    firsts = [n for n in walk_no_nested(r) if isinstance(n, ast.Subscript) and isinstance(n.value, ast.Subscript)
+              and src(n.value.slice) == "0" and isinstance(n.value.value, ast.Name)]
+    ok3 = bool(firsts) and all(src(n.slice) == "1" for n in firsts)
     a = prog.func("src/long_read_counter.py", "AssignedFeatureCounter.add_read_info")
     ok4 = False
     for n in walk_no_nested(a):
-        if isinstance(n, ast.Subscript) and src(n) == "list(feature_ids)[0]":
+        if isinstance(n, ast.Subscript) and shape(a, n) == "list($)[0]":
             st = n
             while not isinstance(st, ast.stmt):
                 st = st._parent
             from ..engine import flow
             ok4 = any(p and src(t).endswith(".is_unique()") for t, p in flow.guard_facts(st, stop=a))
     fa = prog.func("src/multimap_resolver.py", "MultimapResolver.filter_assignments")
-    ok5 = "all_genes.update(assignment.genes)" in src(fa) and "all_isoforms.update(assignment.isoforms)" in src(fa)
+    upd = [shape(fa, c) for c in walk_no_nested(fa) if isinstance(c, ast.Call) and isinstance(c.func, ast.Attribute) and c.func.attr == "update"]
+    ok5 = "$.update($.genes)" in upd and "$.update($.isoforms)" in upd
     users = []
     for m, q, fn in prog.all_functions():
         for n in walk_no_nested(fn):
             if isinstance(n, ast.Attribute) and n.attr in ("isoforms", "genes") and isinstance(n.ctx, ast.Load) \
-                    and q.split(".")[0] not in ("BasicReadAssignment",) and "assignment" in src(n.value):
+                    and q.split(".")[0] not in ("BasicReadAssignment",) and m.rel in ("src/multimap_resolver.py", DSP):
                 users.append((q, src(n)))
     ok6 = all(q == "MultimapResolver.filter_assignments" for q, _ in users)
     return {"info file re-read into a set": ok1, "groups file re-read into a set": ok2, "only scores[0][1] is read": ok3,
@@ -80,7 +85,7 @@ def o1(prog, ctx):
                               "hash_ordered_attributes": {k: v[:120] for k, v in taint.attrs.items()}}
     used = set()
     for m, q, f, node, kind, origin in taint.sinks:
-        text = src(node).replace("\n", " ")
+        text = shape(f, node).replace("\n", " ")       # local variable names do not matter
         hit = None
         for i, (tm, tq, tk, tc, why) in enumerate(TRIAGE):
             if tm == m.rel and tq == q and kind.startswith(tk) and text.startswith(tc):
@@ -166,8 +171,22 @@ def o2(prog, ctx):
         ctx.ok("O2", "%s:%d" % (DSP, gl.lineno), "chromosome tasks submitted in a sorted order (ties keep FASTA order: input-determined)")
     # merged results loops accumulate commutatively
     for q in ("DatasetProcessor.collect_reads", "DatasetProcessor.process_assigned_reads"):
-        f = prog.func(DSP, q)
-        loops = [l for l in walk_no_nested(f) if isinstance(l, ast.For) and src(l.iter) == "results"]
+        f = prog.func_inlined(DSP, q)
+        dp_meths = prog.methods_of(prog.cls(DSP, "DatasetProcessor"), inherited=False)
+
+        def yields_map(call):
+            """a (pool or builtin) map call, or a helper of the class all of whose returns are such calls"""
+            last = (call_name(call) or "").split(".")[-1]
+            if last == "map":
+                return True
+            h = dp_meths.get(last)
+            if h is not None and isinstance(call.func, ast.Attribute) and dotted(call.func.value) == "self":
+                rets = [r for r in walk_no_nested(h) if isinstance(r, ast.Return)]
+                return bool(rets) and all(isinstance(r.value, ast.Call) and (call_name(r.value) or "").split(".")[-1] == "map" for r in rets)
+            return False
+        res_names = {t.id for st_ in walk_no_nested(f) if isinstance(st_, ast.Assign) and isinstance(st_.value, ast.Call)
+                     and yields_map(st_.value) for t in st_.targets if isinstance(t, ast.Name)}
+        loops = [l for l in walk_no_nested(f) if isinstance(l, ast.For) and isinstance(l.iter, ast.Name) and l.iter.id in res_names]
         if len(loops) != 1:
             ctx.fail("O2", f, q, "for ... in results", "results of the pool are not consumed by a single loop")
         else:
